@@ -248,6 +248,7 @@ class CoreMixin:
         self.seq_risky = False
         self.assumed = {}
         self.noseq = []
+        self.noquant = []
         self.wf_seen = set()
         self.wf_keep = []
         from . import lists as L
@@ -257,6 +258,12 @@ class CoreMixin:
 
     def assume(self, zbool):
         if z3.is_true(zbool):
+            return
+        if z3.is_and(zbool) and has_quantifier(zbool):
+            # conjuncts separately: the quantifier-free ones reach the light solver
+            self.assumed.setdefault(zbool.hash(), []).append(zbool)
+            for c in zbool.children():
+                self.assume(c)
             return
         self.solver.add(zbool)
         self.assumed.setdefault(zbool.hash(), []).append(zbool)
@@ -270,6 +277,8 @@ class CoreMixin:
             self.noseq.append(zbool)
         if q:
             self.pc_has_quant = True
+        else:
+            self.noquant.append(zbool)
         if not q and not sq:
             self.light.add(zbool)
         self.pc_n += 1
@@ -416,8 +425,18 @@ class CoreMixin:
             # (cvc5 first, then the z3 command line); no model is extracted
             from . import backend
             t0 = time.time()
-            verdict, who = backend.run_cli(backend.smt2_of(self.solver.assertions(), [z3.Not(goal)]),
-                                           self.check_timeout_ms)
+            verdict, who = 'unknown', None
+            sub_sat = None
+            if self.pc_has_quant and not has_quantifier(goal):
+                # first without the quantified hypotheses (a subset: sound, and much easier for the solvers)
+                verdict, who = backend.run_cli(backend.smt2_of(self.noquant, [z3.Not(goal)]),
+                                               min(self.check_timeout_ms, 5000))
+                if verdict != 'unsat':
+                    sub_sat = who if verdict == 'sat' else None
+                    verdict, who = 'unknown', None
+            if verdict != 'unsat':
+                verdict, who = backend.run_cli(backend.smt2_of(self.solver.assertions(), [z3.Not(goal)]),
+                                               self.check_timeout_ms)
             dt = time.time() - t0
             self.solver_s += dt
             self.queries += 1
@@ -428,6 +447,31 @@ class CoreMixin:
                 rec.results.append(('sat', dt, {'__no_model__': 'external solver %s answered sat' % who}, self.path_no, who))
             else:
                 cand = self.candidate_model(goal)
+                import os
+                if os.environ.get('PYVC_DUMP'):
+                    fn = os.path.join(os.environ['PYVC_DUMP'], '%s_%d_seq.smt2' % (
+                        oid.replace('/', '_').replace(':', '_'), self.path_no))
+                    with open(fn, 'w') as f:
+                        f.write(backend.smt2_of(self.noquant, [z3.Not(goal)]))
+                if cand is None and not sub_sat and not has_quantifier(goal):
+                    # open clause: give the search for a counter-model of the quantifier-free part more time
+                    t1 = time.time()
+                    v2, who2 = backend.run_cli(backend.smt2_of(self.noquant, [z3.Not(goal)]),
+                                               int(self.check_timeout_ms * 2), which=('cvc5',))
+                    self.solver_s += time.time() - t1
+                    if v2 == 'sat':
+                        sub_sat = who2
+                    elif v2 == 'unsat':
+                        rec.results.append(('unsat', dt, None, self.path_no, who2))
+                        if assume_after:
+                            self.assume(goal)
+                        return
+                if cand is None and sub_sat:
+                    # sequence goal: the external solver found the negated clause satisfiable together with
+                    # the quantifier-free hypotheses -- a candidate, not a verdict (no model is extracted)
+                    cand = {'__no_model__': '%s finds the negated clause satisfiable with the quantifier-free '
+                                            'hypotheses (sequence model not extracted)' % sub_sat,
+                            '__candidate__': 'quantified hypotheses not used'}
                 if cand is not None:
                     rec.results.append(('candidate', dt, cand, self.path_no, 'z3'))
                 else:
@@ -492,20 +536,9 @@ class CoreMixin:
                 # hypotheses and the negated goal.  It is not a verdict: the replay on the real
                 # code (which also evaluates the class invariant on the concrete pre-state)
                 # decides whether it is a violation.
-                cand = None
-                try:
-                    self.light.push()
-                    self.light.add(z3.Not(goal))
-                    t0 = time.time()
-                    rl = hard_check(self.light, limit_ms=self.branch_timeout_ms)
-                    self.solver_s += time.time() - t0
-                    if rl == z3.sat:
-                        self._model_solver = self.light
-                        cand = self.capture_model() or {}
-                        cand['__candidate__'] = 'quantified hypotheses not used'
-                    self._model_solver = None
-                finally:
-                    self.light.pop()
+                t0 = time.time()
+                cand = self.candidate_model(goal)
+                self.solver_s += time.time() - t0
                 if cand is not None:
                     rec.results.append(('candidate', dt, cand, self.path_no, 'z3'))
                 else:
@@ -519,16 +552,43 @@ class CoreMixin:
         if mentions_seq_ops(goal):
             return None
         cand = None
+        pushed = 0
         try:
             self.light.push()
             self.light.add(z3.Not(goal))
             rl = hard_check(self.light, limit_ms=self.branch_timeout_ms)
             if rl == z3.sat:
+                # prefer a small pre-state (empty queues, sets, maps): the quantified class invariants
+                # that the light solver does not see hold trivially on empty collections, so a small
+                # model is far more often a reachable state that the replay can rebuild
+                prefs = []
+                try:
+                    prefs = list(self.minimize_terms())[:60]
+                except Exception:  # noqa
+                    prefs = []
+                t_end = time.time() + 8.0
+                for p in prefs:
+                    if time.time() > t_end:
+                        break
+                    self.light.push()
+                    pushed += 1
+                    self.light.add(p)
+                    if hard_check(self.light, limit_ms=700) != z3.sat:
+                        self.light.pop()
+                        pushed -= 1
+                if pushed and hard_check(self.light, limit_ms=self.branch_timeout_ms) != z3.sat:
+                    while pushed:
+                        self.light.pop()
+                        pushed -= 1
+                    hard_check(self.light, limit_ms=self.branch_timeout_ms)
                 self._model_solver = self.light
                 cand = self.capture_model() or {}
                 cand['__candidate__'] = 'quantified / sequence hypotheses not used'
             self._model_solver = None
         finally:
+            while pushed:
+                self.light.pop()
+                pushed -= 1
             self.light.pop()
         return cand
 
@@ -604,6 +664,11 @@ class CoreMixin:
                     pv = self.old_eval(pnode)
                     if pv.z is not None:
                         out['probe:' + pname] = str(m.eval(pv.z, model_completion=True))[:300]
+                        try:
+                            from . import modelval
+                            out.setdefault('__probes__', {})[pname] = modelval.decode(pv.t, pv.z, m)
+                        except Exception:
+                            pass
                 except Exception as err:  # noqa
                     out['probe:' + pname] = '<not evaluable: %s>' % (str(err)[:60],)
         for name, v in self.model_watch:
